@@ -146,6 +146,17 @@ def make_cases(ctx):
         ("malformed-yaml", bad_yaml, [], ["nesting"], ["."]),
         ("malformed-json", bad_json, [], ["nesting"], ["."]),
         ("malformed-yaml-explicit", dict(base, **{"bad.yaml": "a: [1,\n"}), [], ["magic-numbers", "--config", "bad.yaml"], ["."]),
+        # a configuration path that exists but is no file; a missing file next to the other option that can carry settings
+        ("config-is-directory", dict(base, **{"confdir/keep.txt": "x\n"}), [], ["nesting", "--config", "confdir"], ["."]),
+        ("config-is-directory-named-yaml", dict(base, **{"conf.yaml/keep.txt": "x\n"}), [], ["magic-numbers", "--config", "conf.yaml"], ["."]),
+        ("config-is-directory-group", dict(base, **{"confdir/keep.txt": "x\n"}), ["--config", "confdir"], ["srp"], ["."]),
+        ("config-is-directory-dry", dict(base, **{"confdir/keep.txt": "x\n"}), [], ["dry", "--config", "confdir"], ["."]),
+        ("config-is-directory-file-placement", dict(base, **{"confdir/keep.txt": "x\n"}), [], ["file-placement", "--config", "confdir"], ["."]),
+        ("missing-config-beside-rules", base, [], ["file-placement", "--rules", "{}", "--config", "nope.yaml"], ["."]),
+        ("missing-config-group-with-project-root", base, ["--config", "nope.yaml", "--project-root", "."], ["nesting"], ["."]),
+        ("missing-config-with-project-root", base, ["--project-root", "."], ["nesting", "--config", "nope.yaml"], ["."]),
+        ("yaml-list-config-dry", dict(base, **{"list.yaml": "- a\n- b\n"}), [], ["dry", "--config", "list.yaml"], ["."]),
+        ("yaml-list-config", dict(base, **{"list.yaml": "- a\n- b\n"}), [], ["nesting", "--config", "list.yaml"], ["."]),
         ("bad-option-value", base, [], ["nesting", "--max-depth", "x"], ["."]),
         ("unknown-option", base, [], ["srp", "--bogus"], ["."]),
         ("zero-max-methods", base, [], ["srp", "--max-methods", "0"], ["."]),
